@@ -232,8 +232,9 @@ Proof.
     destruct (c_exam c); [exact Hw|].
     destruct (gate b s uidc true) as [[b0 o0]|] eqn:G; [|exact Hw].
     apply gate_true in G. assert (H0 : bP b0) by (subst b0; apply flush_bP; apply (Hw _ _ E)).
-    destruct (admit_set w n b0 uidc set) as [[[b1 o1] sl]|] eqn:A; [|cbn [fst]; apply wP_set_box; trivial].
-    apply admit_set_ok in A. assert (H1 : bP b1) by (subst b1; apply resync_bP; exact H0).
+    destruct (admit_set w n b0 uidc set) as [[[b1a o1a] sl]|] eqn:A; [|cbn [fst]; apply wP_set_box; trivial].
+    apply admit_set_ok in A. split_pair (flush b1a s) b1 o1b.
+    assert (H1 : bP b1) by (subst b1 b1a; apply flush_bP; apply resync_bP; exact H0).
     destruct (smem "\Recent" flags || existsb reserved_kw flags) eqn:Er; [cbn [fst]; apply wP_set_box; trivial|].
     apply orb_false_elim in Er. destruct Er as [_ Er].
     match goal with |- context [dispatch ?B ?D ?R] => split_pair (dispatch B D R) b3 o2 end.
@@ -243,8 +244,9 @@ Proof.
     apply in_mbox_wP; [exact Hw|]. intros n b E. destruct (get_client b s) as [c|]; [|exact Hw].
     destruct (gate b s uidc true) as [[b0 o0]|] eqn:G; [|exact Hw].
     apply gate_true in G. assert (H0 : bP b0) by (subst b0; apply flush_bP; apply (Hw _ _ E)).
-    destruct (admit_set w n b0 uidc set) as [[[b1 o1] sl]|] eqn:A; [|cbn [fst]; apply wP_set_box; trivial].
-    apply admit_set_ok in A. assert (H1 : bP b1) by (subst b1; apply resync_bP; exact H0).
+    destruct (admit_set w n b0 uidc set) as [[[b1a o1a] sl]|] eqn:A; [|cbn [fst]; apply wP_set_box; trivial].
+    apply admit_set_ok in A. split_pair (flush b1a s) b1 o1b.
+    assert (H1 : bP b1) by (subst b1 b1a; apply flush_bP; apply resync_bP; exact H0).
     match goal with |- context [dispatch ?B ?D ?R] => split_pair (dispatch B D R) b3 o2 end.
     split_pair (flush b3 s) b4 o3. cbn [fst]. apply wP_set_box; [exact Hw|].
     subst b4. apply flush_bP. subst b3. apply dispatch_bP.
@@ -252,9 +254,9 @@ Proof.
     intros m0 Hm0. destruct k; [apply touch_flags_mP|exact Hm0|apply touch_body_mP]; exact Hm0.
   - (* OSearch *)
     apply in_mbox_wP; [exact Hw|]. intros n b E.
-    destruct (gate b s uidc false) as [[b0 o0]|] eqn:G; [|exact Hw].
-    rewrite admit_is_resync. split_pair (resync b0) b1 o1. cbn [fst].
-    apply wP_set_box; [exact Hw|]. subst b1. apply resync_bP.
+    destruct (gate b s uidc true) as [[b0 o0]|] eqn:G; [|exact Hw].
+    rewrite admit_is_resync. split_pair (resync b0) b1a o1a. split_pair (flush b1a s) b1 o1b. cbn [fst].
+    apply wP_set_box; [exact Hw|]. subst b1 b1a. apply flush_bP. apply resync_bP.
     apply gate_any in G. destruct G as [->| ->]; [apply flush_bP|]; apply (Hw _ _ E).
   - (* OExpunge *)
     apply in_mbox_wP; [exact Hw|]. intros n b E. destruct (get_client b s) as [c|]; [|exact Hw].
